@@ -141,6 +141,26 @@ theorem C19_stack_roundtrip_compute
         ∃ c, compress { pm with dir := d } r = .ok c ∧ decompressU c r (some [ip, udp, cs]) none = .ok ⟨b.bits, .right⟩) :=
   roundtrip_ipv6_udp_coap_semantic ip hi6 hinp hipm udp hu hunp hum cs hc hsem fuel b hside h1 h2 hs hp1 hp2 hp3 hwf d r rf12 restR hr h12r hn hdir hncR
 
+/-- the IPv4 / UDP / CoAP-semantic variant: total length, header checksum, UDP length and UDP checksum may be compute (any
+    subset); the header checksum is computed after the total length and the UDP checksum after the UDP length, over the
+    re-encoded options -/
+theorem C19_stack_roundtrip_compute4
+    (ip : ParserInst) (hi4 : ip.cls = "IPv4Parser") (hinp : ip.predict = false) (hipm : ip.coapMode = .syntactic)
+    (udp : ParserInst) (hu : udp.cls = "UDPParser") (hunp : udp.predict = false) (hum : udp.coapMode = .syntactic)
+    (cs : ParserInst) (hc : cs.cls = "CoAPParser") (hsem : cs.coapMode = .semantic)
+    (fuel : Nat) (b : ABuf) (hside : b.side = .left) (h1 h2 hs : Header)
+    (hp1 : runParser fuel ip b = .ok h1) (hp2 : runParser fuel udp (b.from_ h1.length) = .ok h2)
+    (hp3 : coapParse .syntactic fuel ((b.from_ h1.length).from_ h2.length) = .ok hs) (hwf : WfNibbles (pairs hs.fields))
+    (d : Dir) (r : Rule) (rf16 restR : List RuleField) (hr : r.fields = rf16 ++ restR) (h16r : rf16.length = 16)
+    (hn : r.nature = .compression) (hdir : ∀ rf ∈ r.fields, Spec.dirApplies d rf.dir = true)
+    (hncR : ∀ rf ∈ restR, rf.cda ≠ .compute) :
+    ∃ pm : Packet, packetParse fuel [ip, udp, cs] b = .ok pm ∧
+      (Spec.applicable { pm with dir := d } r = true → AllFitsC pm.fields r.fields →
+        Valid4 (fv (h1.fields ++ h2.fields) 0) (fv (h1.fields ++ h2.fields) 1) (fv (h1.fields ++ h2.fields) 2) (fv (h1.fields ++ h2.fields) 3) (fv (h1.fields ++ h2.fields) 4) (fv (h1.fields ++ h2.fields) 5) (fv (h1.fields ++ h2.fields) 6) (fv (h1.fields ++ h2.fields) 7) (fv (h1.fields ++ h2.fields) 8) (fv (h1.fields ++ h2.fields) 9) (fv (h1.fields ++ h2.fields) 10) (fv (h1.fields ++ h2.fields) 11) (fv (h1.fields ++ h2.fields) 12) (fv (h1.fields ++ h2.fields) 13) (fv (h1.fields ++ h2.fields) 14) (fv (h1.fields ++ h2.fields) 15)
+          (pairs hs.fields ++ [(Gen.payloadId, pm.payload)]) →
+        ∃ c, compress { pm with dir := d } r = .ok c ∧ decompressU c r (some [ip, udp, cs]) none = .ok ⟨b.bits, .right⟩) :=
+  roundtrip_ipv4_udp_coap_semantic ip hi4 hinp hipm udp hu hunp hum cs hc hsem fuel b hside h1 h2 hs hp1 hp2 hp3 hwf d r rf16 restR hr h16r hn hdir hncR
+
 /-- the CoAP parser alone as a one-header stack, options in semantic mode -/
 theorem C19_single_unparse (cs : ParserInst) (hc : cs.cls = "CoAPParser") (hsem : cs.coapMode = .semantic)
     (fuel : Nat) (b : ABuf) (hside : b.side = .left) (hs : Header)
